@@ -160,7 +160,7 @@ class CHECK(FloCheck):
             "several depths, transitions out of suspended outlines, stop/abort at chosen ticks), each run 4-14 ticks on a "
             "dyadic tick; plus the bounded-exhaustive family (1 main framer of 2 frames x <=2 preacts or 3 frames x <=1 "
             "preact from {go f if .v0>=c, aux m1 if .v0>=c}, every over structure) — all of it in the thorough tier. "
-            "Non-trivial = the run takes a transition, enters an auxiliary or stops a running framer; distinct by program")
+            "Non-trivial = the run takes a transition, enters an auxiliary or stops a running framer; distinct by program. In 40 % of the framers the frames are declared in an order independent of the hierarchy (random or exactly reversed: children before parents, forward `in`/`under`/`go`/`first` references).")
     TRUSTED = ["correspondence: the real Builder + Skedder run generated FloScript (floeng.render) in-process; the Lean "
                "interpreter gets the same program as numbers (floeng.encode: names, `next`/`me`/`all` resolved by the harness)",
                "recorder deed registered with doing.doify and an end-of-tick snapshot taken when Skedder.run evaluates "
